@@ -13,6 +13,7 @@ CONSTANTS
   FixCommonSnapshot = TRUE
   GenDepth = 0
   GenHistory = TRUE
+  GenReject = TRUE
 VIEW GenView
 INVARIANT Emit
 CHECK_DEADLOCK FALSE
